@@ -1,8 +1,11 @@
 """C13 — a generated converter equals the field-wise construction the linking rules fix.
 
 Lean side: AdaptixModel/Conv/{Link,Convert}.lean (model), AdaptixProofs/Props/C13.lean (theorems).
-Tie: correspondence `convert` — generated model pairs (five model kinds, nested, generic, wrapped in
-Optional / iterables / dict) related by rename / drop / add / retype edits, recipes of the public providers
+Tie: correspondence `convert` — generated model pairs (five model kinds, nested, generic, field-less, classes
+defining __bool__ / __len__; fields wrapped in Optional / iterables / dict, the wrappers nesting up to three deep)
+related by rename / drop / add / retype edits (leaf types below a wrapper are retyped too and served by user
+coercers), source values biased per case towards the falsy-but-not-None inhabitants of every type (0, 0.0, "",
+False, Decimal(0), empty containers, empty / falsy model instances), recipes of the public providers
 (link, link_constant, link_function, from_param, allow/forbid_unlinked_optional, coercer) with overlapping
 entries in random order, extra parameters (same-named at top level and nested, defaults, keyword-only), several
 calls each; the real get_converter / impl_converter / convert / ConversionRetort are run in-process and compared
@@ -32,7 +35,10 @@ CLAIM = {
         "name, coercion recursing through nested models, Optional, iterables and dicts (convert_eq_spec, "
         "call_eq_spec); recipe order decides (first_link_wins); a same-named extra parameter, rightmost first, wins "
         "over the source field exactly for top-level fields (param_over_field_top_level, "
-        "param_over_field_top_level_only, nested_ignores_params); from_param reaches every level (from_param_any_level); unmatched extra source "
+        "param_over_field_top_level_only, nested_ignores_params); from_param reaches every level (from_param_any_level); "
+        "an Optional pair maps None to None and sends every other value - the falsy ones included - through the "
+        "conversion of the wrapped pair, an empty sequence is rebuilt by the destination's factory "
+        "(optional_spec_none_test, optional_converter_none_test, empty_iterable_rebuilt); unmatched extra source "
         "fields do not change any linking (extra_src_ignored); plan evaluation cannot write to the source "
         "(src_untouched); the produced function carries the stub's signature (signature_preserved). The hand-written "
         "model is tied to /repo on every run by the `convert` correspondence over generated model pairs, recipes, "
@@ -115,11 +121,35 @@ def canon_value(u, j):
     return j
 
 
-def check_case(ctx: Ctx, case, reply, suite="convert"):
+def type_depth(ty):
+    """number of Optional / iterable / dict wrappers stacked in a type"""
+    t = ty["t"]
+    if t in ("opt", "iter"):
+        return 1 + type_depth(ty["a"])
+    if t == "dict":
+        return 1 + type_depth(ty["v"])
+    return 0
+
+
+def note_structure(ctx: Ctx, case):
+    """evidence counters for the structural regions of the input space (types and classes)"""
+    tys = [f["ty"] for c in case["classes"] for f in c["fields"]] + [p["ty"] for p in case["sig"]["params"]]
+    depth = max([type_depth(t) for t in tys] or [0])
+    ctx.dist[f"type-wrapper-depth-{min(depth, 3)}"] += 1
+    if any(not c["fields"] for c in case["classes"]):
+        ctx.dist["class-fieldless"] += 1
+    if any(c.get("falsy") for c in case["classes"]):
+        ctx.dist["class-falsy-by-bool-or-len"] += 1
+    for k, v in (case.get("profile") or {}).items():
+        if v:
+            ctx.dist[f"profile-{k}"] += 1
+
+
+def check_case(ctx: Ctx, case, reply, suite="convert", rc=None):
     """runs the real library on one case; direct oracle; compares with the model reply (if any).
     returns (compared, disagreements)"""
     try:
-        rc = RealCase(case)
+        rc = rc or RealCase(case)
     except Exception as e:  # the generator produced an illegal class body: a harness bug, never silent
         raise InfraError(f"cannot materialise case: {type(e).__name__}: {e}\n{json.dumps(case)[:2000]}")
     world = rc.u.world_json()
@@ -189,6 +219,11 @@ def check_case(ctx: Ctx, case, reply, suite="convert"):
     for p in case["recipe"]:
         ctx.dist[f"provider-{p['k']}"] += 1
     ctx.dist[f"params-{min(len(case['sig']['params']) - 1, 3)}"] += 1
+    note_structure(ctx, case)
+    for k, v in spec.stats.items():       # value regions the documented algorithm went through in this case's calls
+        ctx.dist[k] += v
+    if any(k.startswith("val-optional-coerced:falsy") for k in spec.stats):
+        ctx.dist["case-falsy-value-through-coercing-optional"] += 1
 
     if reply is not None and created[0] != "error":
         compared = 1
@@ -244,10 +279,10 @@ def canon_linking(u, j):
     return j
 
 
-def check_links(ctx: Ctx, case, reply):
+def check_links(ctx: Ctx, case, reply, rc=None):
     """suite `link`: the linkings the real ModelCoercerProvider fetches for the top-level model pair (observed by a
     recording subclass) against `fetchFieldLinking` of the model"""
-    rc = RealCase(case)
+    rc = rc or RealCase(case)
     real = rc.observe_linkings()
     if "ok" not in reply:
         model = reply
@@ -270,11 +305,13 @@ def check_links(ctx: Ctx, case, reply):
 def run_cases(ctx: Ctx, cases, drv, suite="convert"):
     reqs = []
     link_idx = []
+    rcs = []          # the real classes of a case are materialised once and shared by both suites
     for i, case in enumerate(cases):
         try:
             rc = RealCase(case)
         except Exception as e:
             raise InfraError(f"cannot materialise case: {type(e).__name__}: {e}\n{json.dumps(case)[:3000]}")
+        rcs.append(rc)
         world = rc.u.world_json()
         reqs.append(lean_request(case, world))
         if link_applicable(case) and suite == "convert":
@@ -283,15 +320,15 @@ def run_cases(ctx: Ctx, cases, drv, suite="convert"):
                  for i in link_idx]
     replies = drv.batch(reqs + link_reqs) if drv else [None] * len(cases)
     n = d = 0
-    for case, rep in zip(cases, replies):
-        c, dd, _ = check_case(ctx, case, rep, suite)
+    for case, rep, rc in zip(cases, replies, rcs):
+        c, dd, _ = check_case(ctx, case, rep, suite, rc)
         n += c
         d += dd
     if drv:
         ctx.suite(suite, n, d)
         ln = ld = 0
         for i, rep in zip(link_idx, replies[len(cases):]):
-            a, b = check_links(ctx, cases[i], rep)
+            a, b = check_links(ctx, cases[i], rep, rcs[i])
             ln += a
             ld += b
         if link_idx:
